@@ -15,7 +15,8 @@ ID = "C02"
 LEVEL = "exploration"
 RULE = ("random queries in the fragment {atoms, negated atoms, and_, or_ between sides over identical variable sets} "
         "with 1-4 variables (selected and non-selected), list / one-shot generator domains, value-equal distinct "
-        "objects; forced patterns: both sides of an or_ true for the same element, a variable bound by one comparator "
+        "objects, ordering comparisons over partially ordered operands (NaN floats, frozensets), plain and negated; "
+        "forced patterns: both sides of an or_ true for the same element, a variable bound by one comparator "
         "and re-used later, non-selected variables that multiply rows.  Non-trivial = some assignment satisfies both "
         "sides of an else-if, or the expected multiset contains a repeated row; distinct = skeleton x domain-size "
         "signature x selection")
@@ -42,7 +43,20 @@ def recover(ctx):
     ctx["m"].reset_eql_process_state()
 
 
+def gen_porder_atom(rng, names):
+    """ordering comparison over operands that are only partially ordered (NaN floats, frozensets)"""
+    v, w = rng.choice(names), rng.choice(names)
+    op = rng.choice(["<", "<=", ">", ">="] * 2 + ["==", "!="])
+    if rng.random() < 0.5:
+        return ["cmp", op, ["attr", ["var", v], "f"],
+                ["attr", ["var", w], "f"] if rng.random() < 0.6 else ["lit", rng.choice([0.0, 1.0, 2.5])]]
+    return ["cmp", op, ["attr", ["var", v], "fs"], ["attr", ["var", w], "fs"]]
+
+
 def gen_atom_nnf(rng, names, ctx):
+    if rng.random() < 0.12:
+        a = gen_porder_atom(rng, names)
+        return ["not", a] if rng.random() < 0.5 else a
     a = GEN.gen_atom(rng, names, False, ctx)
     while a[0] == "truth":      # keep to comparisons / membership (atoms of the fragment)
         a = GEN.gen_atom(rng, names, False, ctx)
